@@ -9,6 +9,12 @@ conformant server has (expedited or normal response for <= 4 bytes, short
 segments), and - by deviation-bounded search - the latency of every response
 and one unrelated mail (CoE emergency / EoE) queued before a response.
 
+Terminals that refuse a transfer: per entry an access right from
+{read-write, write-only, not readable in the present state, read-only,
+absent subindex}.  An upload / download the terminal answers with an SDO abort
+request (command 4) must not end as if it had worked: sdo_read must not hand
+out a value, sdo_write must not return.
+
 Known defects are identified by *defect models*: each known finding owns the
 minimal source repair of one defect (applied to an in-memory copy of
 ebpfcat/ethercat.py, never to /repo).  A failing execution is attributed to
@@ -33,7 +39,11 @@ RULE = ("direction x addressing (subindex / complete access) x out mailbox "
         "x in mailbox sizes from {24,32,64,128} x every value length 0.."
         "first-segment capacity + 2 full segments + 8 x server style x "
         "(bounded) response latencies and one unrelated mail before any "
-        "response; non-trivial = the transfer needed more than one mailbox "
+        "response; plus the same grid for entries that refuse the transfer "
+        "(upload: write-only / not readable in this state / absent subindex; "
+        "download: read-only / absent subindex; aborted complete access: "
+        "downloads, and uploads of empty objects only); "
+        "non-trivial = the transfer needed more than one mailbox "
         "message or carried > 4 bytes; distinct = distinct (case, choices)")
 
 OUT_OFF, IN_OFF = 0x1000, 0x1100
@@ -41,6 +51,15 @@ SIZES = (24, 32, 64, 128)
 IDX, SUB, CA_IDX = 0x2000, 3, 0x3000
 VAR_IDX = 0x2100
 NEIGHBOUR = b"neighbour-entry!"
+
+# ways a conformant terminal refuses a transfer: access right of the entry
+# -> (direction it refuses, SDO abort code it answers with)
+REFUSALS = {
+    "wo": ("r", coe.AB_WRITEONLY),        # write-only entry
+    "state": ("r", coe.AB_STATE),         # not readable in the present state
+    "ro": ("w", coe.AB_READONLY),         # read-only entry
+    "absent": ("rw", coe.AB_NO_SUBINDEX),  # the object has no such subindex
+}
 
 
 # ------------------------------------------------------------------ repairs
@@ -305,6 +324,36 @@ def objects(case):
             (VAR_IDX, 0): old, (VAR_IDX, 1): NEIGHBOUR}
 
 
+def address(case):
+    if case["ca"]:
+        return CA_IDX, None
+    if case.get("sub0"):
+        return VAR_IDX, 0
+    return IDX, SUB
+
+
+def restrict(case, server):
+    """give the addressed entry the access right case["acc"]"""
+    acc = case.get("acc")
+    if acc is None:
+        return
+    index, sub = address(case)
+    entries = [(CA_IDX, 1), (CA_IDX, 2)] if case["ca"] else [(index, sub)]
+    if acc == "wo":
+        server.writeonly.update(entries)
+    elif acc == "state":
+        for e in entries:
+            server.upload_refused[e] = coe.AB_STATE
+    elif acc == "ro":
+        server.readonly.update(entries)
+    elif acc == "absent" and not case["ca"]:
+        # the value lives in the next subindex, the addressed one is a gap
+        value = server.objects.pop((index, sub))
+        server.objects.setdefault((index, sub + 1), value)
+    else:
+        raise core.Internal(f"unknown access right {acc!r}")
+
+
 def execute(ch, case, mod, k):
     """one execution on the real code -> observation (plain data)"""
     loop = vloop.VLoop()
@@ -313,6 +362,8 @@ def execute(ch, case, mod, k):
         coe.configure_mailbox(t, OUT_OFF, case["out"], IN_OFF, case["in"])
         coe.esc_mailbox_rules(t)
         server = coe.SdoServer(objects(case))
+        restrict(case, server)
+        before = dict(server.objects)
         if case["style"] == 1:
             server.expedited_upload = False
             server.upload_chunk = 7
@@ -339,9 +390,7 @@ def execute(ch, case, mod, k):
         term.mbx_out_off, term.mbx_out_sz = OUT_OFF, case["out"]
         term.mbx_in_off, term.mbx_in_sz = IN_OFF, case["in"]
         new = payload(case["L"], case["seed"], 0)
-        index, sub = (CA_IDX, None) if case["ca"] else (IDX, SUB)
-        if case.get("sub0"):
-            index, sub = VAR_IDX, 0
+        index, sub = address(case)
         if case["dir"] == "w":
             coro = term.sdo_write(new, index, sub)
         else:
@@ -358,7 +407,7 @@ def execute(ch, case, mod, k):
             outcome = ("return",)
             result = fut.result()
         held = server.ca_value(CA_IDX, 1) if case["ca"] \
-            else server.objects[index, sub]
+            else server.objects.get((index, sub), b"")
         neighbour = bytes(server.objects[VAR_IDX, 1])
         lo, hi = OUT_OFF, OUT_OFF + case["out"]
         beyond = [(a, len(d)) for a, d in t.write_log
@@ -372,6 +421,7 @@ def execute(ch, case, mod, k):
                 else repr(result)[:80]),
             held=held.hex(),
             neighbour_ok=neighbour == NEIGHBOUR,
+            unchanged=server.objects == before,
             errors=[list(e) for e in server.protocol_errors],
             aborts=[list(a) for a in server.aborts],
             toggles=list(server.toggles),
@@ -407,6 +457,8 @@ def judge(case, obs):
                     obs["denied"]))
     if obs["errors"]:
         bad.append(("request violates the SDO protocol", [], obs["errors"]))
+    if case.get("acc"):
+        return bad + judge_refused(case, obs, old)
     if obs["aborts"]:
         bad.append(("terminal aborted the transfer", [],
                     [[a[0], a[1], hex(a[2])] for a in obs["aborts"]]))
@@ -435,6 +487,39 @@ def judge(case, obs):
     return bad
 
 
+def judge_refused(case, obs, old):
+    """the terminal answered the initiate request with an SDO abort: the
+    call must not end as if the transfer had taken place"""
+    bad = []
+    index, sub = address(case)
+    want = [[index, 1 if sub is None else sub, REFUSALS[case["acc"]][1]]]
+    if obs["aborts"] != want:
+        # the model's own business: exactly the refusal, nothing else
+        bad.append(("terminal did not just refuse the transfer",
+                    [[a, b, hex(c)] for a, b, c in want],
+                    [[a[0], a[1], hex(a[2])] for a in obs["aborts"]]))
+    if obs["toggles"]:
+        bad.append(("segments after the transfer was aborted", [],
+                    obs["toggles"]))
+    if obs["open_transfer"]:
+        bad.append(("terminal still waits for segments", "no transfer",
+                    "open"))
+    if not obs["unchanged"] or not obs.get("neighbour_ok", True):
+        bad.append(("a refused transfer changed the dictionary", "untouched",
+                    "changed"))
+    if obs["outcome"] == ("return",):
+        if case["dir"] == "w":
+            bad.append(("sdo_write returned although the terminal aborted "
+                        "the download", "an exception", obs["result"]))
+        elif case["acc"] != "absent" and old == "" \
+                and obs["result"] == ("bytes", ""):
+            pass    # the refused entry / object is empty: b"" is its value
+        else:
+            bad.append(("sdo_read returned a value although the terminal "
+                        "aborted the upload", "an exception", obs["result"]))
+    return bad
+
+
 def symptom(obs):
     return core.digest([obs["outcome"], obs["held"], obs["errors"],
                         obs["aborts"], obs["toggles"], obs["denied"],
@@ -459,7 +544,8 @@ def coarse(case, obs, bad):
         rest = L - cap
         cls = ("seg", min(3, -(-rest // seg)), rest % seg == 0,
                0 < rest % seg < 7)
-    return (case["dir"], case["ca"], out, inn, case["style"], cls,
+    return (case["dir"], case["ca"], case.get("acc"), out, inn,
+            case["style"], cls,
             tuple(tuple(i) for i in obs["injected"]),
             re.sub(r"\d+", "#", repr(obs["outcome"])),
             tuple(w for w, _, _ in bad))
@@ -554,6 +640,23 @@ def cases(ctx):
                                 out.append(dict(dir=d, ca=ca, out=o, L=L,
                                                 style=st, seed=ctx.seed,
                                                 sub0=True, **{"in": i}))
+    return out + refused(out)
+
+
+def refused(plain):
+    """the same grid (style 0) against an entry that refuses the transfer.
+    An aborted complete-access upload is read as 'no data' by design, so it
+    is enumerated for empty objects only."""
+    out = []
+    for c in plain:
+        if c["style"] != 0:
+            continue
+        for acc, (dirs, _) in REFUSALS.items():
+            if c["dir"] not in dirs or (c["ca"] and acc == "absent"):
+                continue
+            if c["ca"] and c["dir"] == "r" and c["L"] != 0:
+                continue
+            out.append(dict(c, acc=acc))
     return out
 
 
@@ -569,6 +672,12 @@ def work(item, res):
         if case["L"] > 4 or len(obs["mails_in"]) > 1:
             res.nontrivial.add(core.digest([case, ch.choices]))
         bad = judge(case, obs)
+        if not bad and case.get("acc"):
+            res.count("refused_transfers")
+            res.outcomes.add(("refused", case["dir"], case["ca"], case["acc"],
+                              obs["outcome"][:2],
+                              tuple(i[1] for i in obs["injected"])))
+            return
         if not bad:
             res.outcomes.add(("ok", case["dir"], min(len(obs["mails_in"]), 4),
                               tuple(i[1] for i in obs["injected"])))
@@ -587,7 +696,8 @@ def work(item, res):
         else:
             res.violation(
                 cj, exp, seen, kf=None,
-                sig=core.digest([case["dir"], case["ca"], what,
+                sig=core.digest([case["dir"], case["ca"], case.get("acc"),
+                                 what,
                                  re.sub(r"\d+", "#", repr(seen))[:60]]),
                 note=what + "; all problems: "
                 + "; ".join(w for w, _, _ in bad))
@@ -611,6 +721,10 @@ def run(ctx):
         b = boundary(size, c["L"])
         if ctx.quick:
             bound = 1
+        elif c.get("acc"):
+            # a refusal is the answer to the first message: the lengths
+            # away from the boundaries only vary the request
+            bound = 3 if b else 1
         else:
             bound = 3 if b else 2
         items.append((c, bound, k))
@@ -627,6 +741,8 @@ def run(ctx):
     res.cov["cases"] = len(items)
     res.cov["bound_completed"] = 1 if ctx.quick else 2
     res.cov["bound_boundary_lengths"] = 1 if ctx.quick else 3
+    res.cov["bound_refused_transfers"] = 1
+    res.cov["bound_refused_boundary_lengths"] = 1 if ctx.quick else 3
     res.cov["model_selftest"] = stats
     res.cov["repairs_applicable"] = [kf for kf in ORDER
                                      if KF[kf][0](source()) is not None]
@@ -643,6 +759,16 @@ def run(ctx):
         "(ESC rule); a bare write to the mailbox's end address is denied",
         "the terminal never repeats a response and never sends more than "
         "one unrelated mail per transfer",
+        "a transfer the terminal refuses (SDO abort request as the answer "
+        "to the initiate request: write-only 0x06010001, present state "
+        "0x08000022, read-only 0x06010002, no such subindex 0x06090011) "
+        "must not end as if it had worked: sdo_write must not return, "
+        "sdo_read must not return a value; any exception is accepted, and "
+        "so is b'' for a refused entry that exists and is empty",
+        "an aborted complete-access upload is read as 'no data' by design "
+        "(Terminal.sdo_read returns b'') and is only enumerated for empty "
+        "objects; aborted complete-access downloads are enumerated for "
+        "every length",
         "a known finding is attributed only if its source repair, applied "
         "in memory, changes the observation and the complete set of "
         "attributed repairs makes the same execution satisfy the oracle",
